@@ -133,7 +133,22 @@ func genWorld09(r *simcore.Rand) (spec *indexsim.WorldSpec, shape string, held [
 		if r.Bool(0.6) {
 			g.add(indexsim.Item{K: "claim", S: 0, PN: pn, CT: "add", Attr: "tag", Val: tagVals[r.Intn(3)], D: next()})
 		}
-		if r.Bool(0.5) {
+		explicit := r.Bool(0.5)
+		if !explicit && r.Bool(0.12) {
+			// the permanode's time comes from its content: a file whose
+			// modification time lies among the other instants; the file's
+			// schema blob is held back, so the permanode moves in the
+			// orderings by time between two batches of sessions
+			chunk := g.add(indexsim.Item{K: "blob", Seed: uint64(1000 + i), Size: r.Range(5, 40)})
+			mt := created[r.Intn(n)]/1000 + int64(r.Intn(3)) - 1
+			if mt <= 0 {
+				mt = int64(1 + r.Intn(300))
+			}
+			file := g.add(indexsim.Item{K: "file", Parts: []int{chunk}, Name: fmt.Sprintf("f%d.txt", i), MT: mt})
+			g.add(indexsim.Item{K: "claim", S: 0, PN: pn, CT: "set", Attr: "camliContent", Ref: file + 1, D: next()})
+			held = append(held, file)
+		}
+		if explicit {
 			// an explicit creation time; otherwise the permanode's creation
 			// time is its modification time
 			t := indexsim.BaseDate().AddDate(0, 0, int(created[i]/msPerDay)).Add(time.Duration(created[i]%msPerDay) * time.Millisecond)
@@ -220,8 +235,19 @@ func genC09(tier string, run int, r *simcore.Rand) *harness.Plan {
 			c = &QC{CT: "permanode"}
 		case x < 45:
 			c = &QC{PN: &QPN{}}
-		case x < 70:
+		case x < 66:
 			c = &QC{PN: g.pn(2)}
+		case x < 76:
+			// fields next to Permanode: all non-zero fields must match, on
+			// every page. The prefix is that of a permanode of the world
+			// (first 0-2 digest characters), so there is a first page.
+			c = &QC{PN: &QPN{}, Pfx: &QPfx{I: wi.pns[r.Intn(npn)], N: len("sha224-") + r.Range(0, 2)}}
+			if r.Bool(0.4) {
+				c.PN = g.pn(2)
+			}
+			if r.Bool(0.3) {
+				c.Size = g.intc([]int64{10, 200, 480, 700})
+			}
 		case x < 85:
 			c = &QC{Op: "and", A: &QC{CT: "permanode"}, B: &QC{Op: "not", A: &QC{PN: g.pn(3)}}}
 		default:
